@@ -217,6 +217,7 @@ def build_region(r):
                 r.dropped = []
                 coarse = bool(r.opts.get("_coarse"))
                 merged = merge.merge3(base, ann, cur, r.dropped, coarse=coarse)
+                merged, r.ghost_completed = merge.complete_ghost_args(ann, merged)
                 try:
                     back = erase.erase(merged)
                 except (erase.EraseError, lex.LexError):
@@ -225,6 +226,7 @@ def build_region(r):
                     # second attempt: treat the whole changed middle as rewritten (annotations inside it are dropped)
                     r.dropped = []
                     merged = merge.merge3(base, ann, cur, r.dropped, coarse=True)
+                    merged, r.ghost_completed = merge.complete_ghost_args(ann, merged)
                     back = erase.erase(merged)
                 if back != cur:
                     raise Inconclusive("erasure check failed after merge for %s:\n%s" % (r.name, _tokdiff(back or [], cur)))
@@ -450,14 +452,17 @@ def label_near(built, l0, l1):
     """label comment on the failing lines, or on the closest preceding lines of the same clause"""
     lines = built.text.split("\n")
     for k in range(l0 - 1, min(l1, len(lines))):
-        m = re.search(r"//\s*@([A-Za-z0-9_.:#\-]+)", lines[k])
+        m = re.findall(r"//\s*@([A-Za-z0-9_.:#\-]+)|\s@(C\d\d\.[A-Za-z0-9_]+)", lines[k])
         if m:
-            return m.group(1)
+            return " ".join(a or b for a, b in m)
     return None
 
 
 class Failure:
     def __init__(self, unit, fn, kind, label, message, rendered, in_region, props):
+        # a clause may serve several properties: `// @C19.x @C15.y`; the first label names the obligation
+        self.labels = label.split() if label else []
+        label = self.labels[0] if self.labels else None
         self.unit, self.fn, self.kind, self.label = unit, fn, kind, label
         self.message, self.rendered, self.in_region, self.props = message, rendered, in_region, props
 
@@ -498,6 +503,9 @@ def classify(built, res, diags):
         site = prim[0] if prim else None
         where = clause or site
         label = label_near(built, where["line_start"], where["line_end"]) if where else None
+        if label is None and clause is not None and site is not None and site is not clause:
+            # a precondition without a label of its own: the label on the call site names the obligation
+            label = label_near(built, site["line_start"], site["line_end"])
         # the function in which the obligation arises: the site (primary span), not the callee clause
         site_line = None
         for s in spans:
